@@ -1728,11 +1728,22 @@ class GroupBy:
                     "Pandas index of times does not match that of the inputs"
                 )
 
+        def take(arr):
+            # row selection is by position: [] on a pandas Series would look up labels
+            if arr is None:
+                return None
+            return arr.iloc[indexer] if isinstance(arr, pd.Series) else arr[indexer]
+
         if self.key_is_chunked:
             # the kernels need one global code per row (chunks hold local codes)
             self._unify_group_key_chunks()
 
         if index_by_groups:
+            if times is not None and len(times) != len(self):
+                # selecting the rows in group order would silently drop the surplus entries
+                raise ValueError(
+                    f"Length of times ({len(times)}) does not match length of group keys ({len(self)})"
+                )
             indexer = self._group_sort_indexer
             result_index = self._build_group_sorted_index(common_index)
             group_counts = self.ikey_count[self._labels_argsort]
@@ -1750,8 +1761,8 @@ class GroupBy:
                 values=_val_to_numpy(val_arr)[indexer],
                 alpha=alpha,
                 halflife=halflife,
-                times=None if times is None else times[indexer],
-                mask=None if mask is None else mask[indexer],
+                times=take(times),
+                mask=take(mask),
             )
             .args
             for val_arr in value_list
